@@ -1687,8 +1687,13 @@ func reader(s *simrt.Sim, sd *side) {
 		if m == 0 {
 			m = 1
 		}
-		b := make([]byte, m)
+		rb := util.NewReadBuf(s, m)
+		b := rb.B
 		n, err := sd.c.Read(b)
+		if msg := rb.Check(n); msg != "" {
+			s.Fail("c07.buffer-overrun{"+sd.name+"}", "%s at stream offset %d: %s", sd.name, off, msg)
+			return
+		}
 		if n > 0 {
 			if i := util.CheckStream(b[:n], sd.recvKey, off); i >= 0 {
 				s.Fail("c07.stream-mismatch{"+sd.name+"}", "%s read a wrong byte at stream offset %d (Read into %d bytes returned %d): lost, duplicated or reordered data after the handshake", sd.name, off+int64(i), m, n)
